@@ -44,7 +44,7 @@ CHECKS = {
          "attribute access only demanded for identifier names outside dir(DataFrame()); scalar assignment onto a 0-row frame may raise or store an empty column",
          "deterministic simulation: seeded op histories with rejected-argument and callback faults, whole-pool invariants after every step", "DESIGN.md 5/C01"),
  "C06": ("e1", "the same histories with byte-level snapshots of the whole pool before/after every step against a buffer-sharing model: functional methods must leave receiver, arguments and bystanders byte-identical (incl. grouping and order) and return columns that share no memory with any pool column; in-place edits and element writes may only be visible where the model says buffers are shared (copy() is shallow, group_by returns the receiver)",
-         "after an operation that raised only C01 invariants are demanded of its operands; object columns: pointer array only; sharing after an in-place rename is 'maybe'",
+         "a functional method that raises must leave its operands byte-identical as well; object columns: pointer array only; sharing after an in-place rename is 'maybe'; index/mask arrays passed as arguments are snapshotted too",
          "deterministic simulation: seeded op histories, snapshot/aliasing oracle over the whole pool", "DESIGN.md 5/C06"),
  "C09": ("e1", "chains of select/unselect/rename (incl. permutations)/cbind/update/modify/rbind and in-place colnames assignment (fresh names and permutations) interleaved with other edits; every column the operation does not name must stay byte-identical to the operand's column and keep its relative order, named columns carry the requested names/positions/values, rbind rows are recoverable per input with missing values for absent columns",
          "rename/colnames collisions with a remaining name and dtype mixes NumPy cannot promote are not generated; position of a column replaced by update/modify is not demanded",
@@ -52,7 +52,7 @@ CHECKS = {
  "C20": ("e12", "render observers (str, repr, to_string, print_ with seeded max_rows/max_width/truncate_width/max_elements/max_items, COLUMNS 20..200, PRINT_* settings) are scheduled between the steps of E1 and E2 histories on objects only histories reach (0-column frames after deleting every column, method-named/non-identifier/wide-Unicode names, obsolete lists, GeoJSON with null geometry): never raises, pool/settings/NumPy print options unchanged, every column name and dtype label present, min(nrow, max_rows) data rows per block, uniform display width per block, total row count stated iff rows were cut",
          "weakest claim: the structural half is a pure function of (object, settings); width/row-count checks skipped for cells with control characters or line breaks; ListOfDicts: totality and side-effect freedom only",
          "deterministic simulation: render observers interleaved in seeded op histories, side-effect snapshot oracle + structural checks", "DESIGN.md 5/C20"),
- "C08": ("e4", "worlds of 1..3 real interpreter lifetimes sharing one NUMBA_CACHE_DIR; the seed decides which accelerated kernel/signature is first used when, with which others in the same aggregate() call, under which cache setting, and which cache fault (wipe, rollback, prune, truncate .nbc/.nbi) or kill point inside numba's cache save (before index, between index and data, after data, torn temp file) happens; every accelerated call is compared with the pure-Python path of the same process (values rtol 1e-9, missing positions, result dtype); ordered first-use pair coverage is measured",
+ "C08": ("e4", "worlds of 1..3 real interpreter lifetimes sharing one NUMBA_CACHE_DIR; the seed decides which accelerated kernel/signature is first used when, with which others in the same aggregate() call, under which cache setting, and which cache fault (wipe, rollback, prune, truncate .nbc/.nbi) or kill point inside numba's cache save (before index, between index and data, after data, torn temp file) happens; the accelerated history is compared call by call with the same history under USE_NUMBA=False, run as a twin process in two thirds of the worlds and inline in the same process otherwise (values rtol 1e-9 / 1e-4 for float32 input, missing positions, result dtype); worlds also contain failing aggregations (poison calls), helper-object reuse and narrow dtypes; ordered first-use pair coverage is measured",
          "domain = helper x dtype combinations both paths accept; under an injected cache fault the accelerated call may raise or recompile but never return different data; a lifetime in which dataiter disabled Numba at import is skipped",
          "deterministic simulation: seeded process-lifetime schedules over a shared JIT cache with crash/cache-loss fault injection, differential oracle vs Python path", "DESIGN.md 5/C08"),
  "C12": ("e3", "seeded storage histories (writes to fresh/nested/overwritten paths, reads, truncations) over all formats x suffixes x sep/header/encoding options inside a stated representable domain, with disk-full at byte k (RLIMIT_FSIZE; reaches pyarrow/NumPy native writers) and stream errors at the n-th write/read through the xopen seam; oracle: an acknowledged write reads back equal (names, order, values, missing positions, dtypes for binary formats) immediately and at any later point of the history, compressed suffixes carry the compressor's magic",
